@@ -89,7 +89,8 @@ def _save_and_reraise(ctx):
         rep.analysed('excutils.save_and_reraise_exception.' + m)
     for initial, reraise in ((True, True), (False, False), (False, True),
                              (True, False)):
-        for body in ('completed', 'Exception', 'BaseException'):
+        for body in ('completed', 'Exception', 'BaseException',
+                     'the original itself'):
             for tb_attached in (True, False):
                 label = 'reraise=%s%s body=%s traceback %s' % (
                     reraise, '' if initial == reraise else
@@ -121,6 +122,10 @@ def _save_and_reraise(ctx):
                     interp.effects[:] = []
                     if body == 'completed':
                         a = [K(None), K(None), K(None)]
+                    elif body == 'the original itself':
+                        # a bare ``raise`` in the body: the very object
+                        # that was saved comes back through __exit__
+                        a = [ExtRef('ValueError'), orig, T('sym', 'new_tb')]
                     else:
                         name = 'KeyError' if body == 'Exception' else \
                             'KeyboardInterrupt'
@@ -464,6 +469,61 @@ def _remove_path(ctx):
                           'call(s)%s' % (label, msg, o.brief(), len(removes),
                                          ' under %s' % cond if cond else ''),
                           case=label)
+    _remove_path_nested(ctx, f)
+
+
+def _remove_path_nested(ctx, f):
+    """The remover itself guards a helper path with remove_path_on_error,
+    fails inside it and deals with that failure: the outer error must still
+    come out as the same object (no state shared between the two uses)."""
+    rep, world = ctx.report, ctx.world
+    path, path2 = T('sym', 'path'), T('sym', 'helper_path')
+    holder = {}
+
+    def thunk(interp):
+        err = exc_obj('body-error', 'ValueError')
+        inner_err = exc_obj('inner-error', 'KeyError')
+        holder['n'] = 0
+
+        def on_yield(interp2, v):
+            holder['n'] += 1
+            interp2.effect('yield', K(holder['n']))
+            raise AbsRaise(err if holder['n'] == 1 else inner_err)
+        interp.on_yield = on_yield
+
+        def inner_remove(interp2, a, kw):
+            interp2.effect('inner-remove', tuple(interp2.termify(x)
+                                                 for x in a))
+            return K(None)
+
+        def remove(interp2, a, kw):
+            interp2.effect('remove', tuple(interp2.termify(x) for x in a))
+            try:
+                interp2.call(f, [path2, AbsFunc('inner-remove',
+                                                inner_remove)])
+            except AbsRaise as r:
+                if not (isinstance(r.exc, Obj) and
+                        r.exc.label == 'inner-error'):
+                    raise
+                interp2.effect('inner-handled')
+            return K(None)
+        return interp.call(f, [path, AbsFunc('remove', remove)])
+    outcomes, _i = extract(world, thunk, depth=8, setup=_setup)
+    key = 'remove_path_on_error[nested use inside the remover]'
+    notes = inexact_notes(outcomes)
+    if notes or not outcomes:
+        rep.undecided('R9.4', key, 'inexact: %s' % notes)
+        return
+    for o in outcomes:
+        eff = [e[0] for e in o.effects if e[0] in (
+            'remove', 'inner-remove', 'inner-handled')]
+        ok = o.kind == 'raise' and isinstance(o.value, Obj) and \
+            o.value.label == 'body-error' and \
+            eff == ['remove', 'inner-remove', 'inner-handled']
+        rep.check('R9.4', key, ok,
+                  'required: remove(path), the helper\'s own failure handled '
+                  'inside it, then the original exception propagates as the '
+                  'same object; found %s after %s' % (o.brief(), eff))
 
 
 def _raise_with_cause(ctx):
